@@ -6,6 +6,8 @@ package filter
 //vf:job C13 thorough VF_C13_Row row=0..69 arity=6..8 mode=0..1
 //vf:job C13 quick VF_C13_NoFilter row=0..69
 //vf:job C13 quick VF_C13_Unknown
+//vf:job C13 quick VF_C13_TwoSources opt_globalyield=1 opt_preempt=2
+//vf:replayE C13 VF_C13_TwoSources
 //vf:assume C13 key positions on the specification side are Redis' published (first,last,step) for the 70 commands of the tool's table (hard-coded in the harness)
 //vf:assume C13 arities are restricted to those for which the command has at least one key and complete companion groups (a master never propagates a malformed command)
 //vf:outside C13 argument strings longer than 1 byte (each argument is one symbolic byte; prefixes are one symbolic byte each, two per list)
@@ -181,4 +183,54 @@ func VF_C13_Unknown() {
 	vfAssert(vfNot(drop), "empty argv dropped")
 	vfAssert(len(got) == 0, "empty argv changed")
 	vfAssertTwin(drop, "twin")
+}
+
+// two source links filter their commands at the same time (sync mode runs one parser goroutine per
+// source): each call must return what it returns alone. Reads and writes of package-level variables
+// are scheduling points in this run (option globalyield), so any state the filter keeps between
+// calls is exposed to the other goroutine.
+func VF_C13_TwoSources() {
+	conf.Options.FilterKeyBlacklist = []string{"x"}
+	conf.Options.FilterKeyWhitelist = nil
+	a := [][]byte{[]byte("x1"), []byte("v1"), []byte("a2"), []byte("v2"), []byte("x3"), []byte("v3")}
+	b := [][]byte{[]byte("b1"), []byte("x2"), []byte("x3"), []byte("b4")}
+	cp := func(in [][]byte) [][]byte {
+		out := make([][]byte, len(in))
+		for i, x := range in {
+			out[i] = append([]byte{}, x...)
+		}
+		return out
+	}
+	eq := func(x, y [][]byte) bool {
+		if len(x) != len(y) {
+			return false
+		}
+		for i := range x {
+			if string(x[i]) != string(y[i]) {
+				return false
+			}
+		}
+		return true
+	}
+	wantA, dropA := HandleFilterKeyWithCommand("mset", cp(a))
+	wantA = cp(wantA)
+	wantB, dropB := HandleFilterKeyWithCommand("del", cp(b))
+	wantB = cp(wantB)
+	vfAssert(!dropA && !dropB && len(wantA) == 2 && len(wantB) == 2, "sequential results")
+	done := make(chan int, 2)
+	var gotA, gotB [][]byte
+	var dA, dB bool
+	go func() {
+		gotA, dA = HandleFilterKeyWithCommand("mset", cp(a))
+		done <- 1
+	}()
+	go func() {
+		gotB, dB = HandleFilterKeyWithCommand("del", cp(b))
+		done <- 1
+	}()
+	<-done
+	<-done
+	vfAssert(dA == dropA && eq(gotA, wantA), "a command filtered while another source link filters its own comes out differently (keys of another command, lost keys or values)")
+	vfAssert(dB == dropB && eq(gotB, wantB), "a command filtered while another source link filters its own comes out differently (keys of another command, lost keys or values)")
+	vfAssertTwin(dA, "twin")
 }
